@@ -102,6 +102,7 @@ func c05Init() {
 			switch kind {
 			case "valid":
 				c, _ := c05MakeCert(mx, c05CA, c05CAKey, false)
+				c.tlsCert.Certificate = append(c.tlsCert.Certificate, c05CA.Raw) // the CA is part of the presented chain (DANE-TA)
 				c05Certs[mx+"/"+kind] = c
 				tcfg = &tls.Config{Certificates: []tls.Certificate{c.tlsCert}}
 			case "selfsigned":
@@ -110,6 +111,7 @@ func c05Init() {
 				tcfg = &tls.Config{Certificates: []tls.Certificate{c.tlsCert}}
 			case "wrongname":
 				c, _ := c05MakeCert("other.invalid", c05CA, c05CAKey, false)
+				c.tlsCert.Certificate = append(c.tlsCert.Certificate, c05CA.Raw)
 				c05Certs[mx+"/"+kind] = c
 				tcfg = &tls.Config{Certificates: []tls.Certificate{c.tlsCert}}
 			case "failing":
@@ -133,7 +135,8 @@ func c05Init() {
 
 type c05MX struct {
 	Kind string `json:"kind"` // plain valid selfsigned wrongname failing
-	// TLSA: none ee-match ee-mismatch unusable servfail
+	// TLSA: none ee-match ee-mismatch unusable servfail ta-match (DANE-TA record for the harness CA, which signed the
+	// `valid` and the `wrongname` certificates and is presented with them)
 	TLSA string `json:"tlsa"`
 	AD   bool   `json:"ad"` // DNSSEC-authenticated A/TLSA answers for this MX
 	// the MX name is a CNAME: "" (no), cname-none (no TLSA at the canonical name: the records at the MX name
@@ -151,6 +154,7 @@ type c05Msg struct {
 	QuarLate   bool `json:"quarantined_at_body_stage,omitempty"` // the flag is raised after the recipients were added (a body-stage check or the DMARC policy quarantines)
 	NonAtomic  bool `json:"per_recipient_body_path,omitempty"` // BodyNonAtomic (what the queue and the LMTP path use) instead of Body
 	Second     bool `json:"second_domain"`                     // recipient at second.invalid (MX = mx2 only) instead of example.invalid
+	Implicit   bool `json:"implicit_mx_domain,omitempty"` // recipient at implicit.invalid: no MX records, the domain's own address record (server of MX 1) is used
 	Both       bool `json:"both_domains"`                      // recipients at example.invalid and then at second.invalid
 }
 
@@ -165,6 +169,7 @@ type c05Scenario struct {
 	AllowOverride bool     `json:"requiretls_override"`
 	Relaxed       bool     `json:"relaxed_requiretls"`
 	ADMX          bool     `json:"ad_on_mx_lookup"`
+	implicitMX    c05MX    // derived in c05Run: facts that apply to the implicit-MX host
 	MXs           []c05MX  `json:"mx"`
 	Msgs          []c05Msg `json:"messages"`
 }
@@ -181,7 +186,7 @@ func c05Gen(t *rapid.T) c05Scenario {
 	}
 	for i, n := 0, rapid.IntRange(1, 2).Draw(t, "nmx"); i < n; i++ {
 		sc.MXs = append(sc.MXs, c05MX{Kind: rapid.SampledFrom(c05Kinds).Draw(t, "kind"),
-			TLSA: rapid.SampledFrom([]string{"none", "none", "ee-match", "ee-mismatch", "unusable", "servfail"}).Draw(t, "tlsa"), AD: rapid.IntRange(0, 3).Draw(t, "ad") != 0,
+			TLSA: rapid.SampledFrom([]string{"none", "none", "ee-match", "ee-mismatch", "unusable", "servfail", "ta-match", "ta-match"}).Draw(t, "tlsa"), AD: rapid.IntRange(0, 3).Draw(t, "ad") != 0,
 			CNAME: rapid.SampledFrom([]string{"", "", "", "cname-none", "cname-servfail", "cname-match"}).Draw(t, "cname"),
 			NoReqTLS: rapid.IntRange(0, 2).Draw(t, "noreqtls") == 0})
 	}
@@ -189,6 +194,10 @@ func c05Gen(t *rapid.T) c05Scenario {
 		sc.Msgs = append(sc.Msgs, c05Msg{RequireTLS: rapid.IntRange(0, 3).Draw(t, "requiretls") == 0, Override: rapid.IntRange(0, 2).Draw(t, "override") == 0,
 			Quarantine: rapid.IntRange(0, 9).Draw(t, "quarantine") == 0, NonAtomic: rapid.Bool().Draw(t, "non_atomic"), QuarLate: rapid.Bool().Draw(t, "quar_late"), Second: len(sc.MXs) == 2 && rapid.IntRange(0, 3).Draw(t, "second") == 0,
 			Both: len(sc.MXs) == 2 && rapid.IntRange(0, 3).Draw(t, "both") == 0})
+		m := &sc.Msgs[len(sc.Msgs)-1]
+		if sc.MTASTS == "" && !m.Second && !m.Both && rapid.IntRange(0, 3).Draw(t, "implicit") == 0 {
+			m.Implicit = true
+		}
 	}
 	return sc
 }
@@ -211,6 +220,11 @@ func (sc c05Scenario) mxMatchesSTS(i int) bool {
 // c05Allowed says whether message m may be handed to MX i over a connection with the given TLS state.
 func c05Allowed(sc c05Scenario, m c05Msg, i int, usedTLS bool) (bool, string) {
 	mx := sc.MXs[i]
+	if m.Implicit {
+		// the host is implicit.invalid itself: the certificate of MX 1's server is for another name, the TLSA
+		// facts are the original ones (before the CNAME adjustment), both zones carry AD together
+		mx = sc.implicitMX
+	}
 	if m.Quarantine {
 		return false, "quarantined messages are never relayed"
 	}
@@ -219,13 +233,19 @@ func c05Allowed(sc c05Scenario, m c05Msg, i int, usedTLS bool) (bool, string) {
 		return false, "harness: TLS on a server that cannot do TLS"
 	}
 	policies := !(m.Override && sc.AllowOverride)
-	daneUsable := sc.DANE && mx.AD && (mx.TLSA == "ee-match" || mx.TLSA == "ee-mismatch")
-	daneAuth := daneUsable && mx.TLSA == "ee-match" && usedTLS
+	daneUsable := sc.DANE && mx.AD && (mx.TLSA == "ee-match" || mx.TLSA == "ee-mismatch" || mx.TLSA == "ta-match")
+	// DANE-TA: the CA record matches only a chain in which the server certificate validly leads to that CA for the MX name
+	daneMatch := mx.TLSA == "ee-match" || (mx.TLSA == "ta-match" && mx.Kind == "valid")
+	daneAuth := daneUsable && daneMatch && usedTLS
 	mxLevel := 0 // none
 	if policies && sc.MTASTS != "" && sc.MTASTS != "none" && sc.mxMatchesSTS(i) {
 		mxLevel = 1 // mtasts
 	}
-	if policies && sc.DNSSEC && sc.ADMX {
+	admx := sc.ADMX
+	if m.Implicit {
+		admx = mx.AD // one zone answers both the (empty) MX query and the address query of the implicit host
+	}
+	if policies && sc.DNSSEC && admx {
 		mxLevel = 2
 	}
 	tlsLevel := 0
@@ -251,7 +271,7 @@ func c05Allowed(sc c05Scenario, m c05Msg, i int, usedTLS bool) (bool, string) {
 			if mx.TLSA != "none" && !usedTLS {
 				return false, "TLSA records exist: TLS is required (DANE)"
 			}
-			if daneUsable && mx.TLSA == "ee-mismatch" {
+			if daneUsable && !daneMatch {
 				return false, "usable TLSA records exist and none matches (DANE)"
 			}
 		}
@@ -309,6 +329,7 @@ func c05Run(sc c05Scenario) (vs []ev.V) {
 		ev.Get("C05").HarnessError("cannot start the scripted MX servers: %v", c05InitErr)
 		return nil
 	}
+	orig0 := sc.MXs[0] // the facts as generated, before the model-side adjustments below
 	servers := make([]*verifx.NextHop, len(sc.MXs))
 	addrOf := map[string]string{}
 	zones := map[string]mockdns.Zone{}
@@ -348,6 +369,8 @@ func c05Run(sc c05Scenario) (vs []ev.V) {
 			}
 		case "ee-mismatch":
 			zones[tlsaName] = mockdns.Zone{AD: mx.AD, Misc: c05TLSA(tlsaName, 3, 1, 1, c05SPKIHash(other))}
+		case "ta-match":
+			zones[tlsaName] = mockdns.Zone{AD: mx.AD, Misc: c05TLSA(tlsaName, 2, 1, 1, c05SPKIHash(c05CA))}
 		case "unusable":
 			zones[tlsaName] = mockdns.Zone{AD: mx.AD, Misc: c05TLSA(tlsaName, 7, 1, 1, c05SPKIHash(other))}
 		case "servfail":
@@ -357,6 +380,15 @@ func c05Run(sc c05Scenario) (vs []ev.V) {
 	// the model works on the records that count: those at the canonical name when the lookup there fails or
 	// yields authenticated records, otherwise those at the MX name (RFC 7672 2.2.2)
 	mxs := append([]c05MX(nil), sc.MXs...)
+	sc.implicitMX = orig0
+	sc.implicitMX.CNAME = ""
+	sc.implicitMX.AD = sc.ADMX && sc.MXs[0].AD
+	if sc.implicitMX.Kind == "valid" {
+		sc.implicitMX.Kind = "wrongname"
+	}
+	if sc.implicitMX.TLSA == "ee-match" && c05Certs[c05MXNames[0]+"/"+orig0.Kind].leaf == nil {
+		sc.implicitMX.TLSA = "ee-mismatch"
+	}
 	sc.MXs = mxs
 	for i := range sc.MXs {
 		if !sc.MXs[i].AD {
@@ -376,6 +408,31 @@ func c05Run(sc c05Scenario) (vs []ev.V) {
 		}
 	}
 	zones["example.invalid."] = mockdns.Zone{AD: sc.ADMX, MX: mxRecs}
+	{
+		// implicit.invalid has no MX records: its own address record is the mail exchanger (RFC 5321 5.1); it is
+		// served by the server of MX 1 and has that MX's TLSA facts (CNAME variants do not apply to it)
+		mx0 := orig0
+		zones["implicit.invalid."] = mockdns.Zone{AD: sc.ADMX && mx0.AD, A: []string{"127.0.0.1"}}
+		addrOf["implicit.invalid"] = servers[0].Addr
+		tn := "_25._tcp.implicit.invalid."
+		leaf := c05Certs[c05MXNames[0]+"/"+mx0.Kind].leaf
+		switch mx0.TLSA {
+		case "ee-match":
+			if leaf != nil {
+				zones[tn] = mockdns.Zone{AD: mx0.AD, Misc: c05TLSA(tn, 3, 1, 1, c05SPKIHash(leaf))}
+			} else {
+				zones[tn] = mockdns.Zone{AD: mx0.AD, Misc: c05TLSA(tn, 3, 1, 1, c05SPKIHash(c05CA))}
+			}
+		case "ee-mismatch":
+			zones[tn] = mockdns.Zone{AD: mx0.AD, Misc: c05TLSA(tn, 3, 1, 1, c05SPKIHash(c05CA))}
+		case "unusable":
+			zones[tn] = mockdns.Zone{AD: mx0.AD, Misc: c05TLSA(tn, 7, 1, 1, c05SPKIHash(c05CA))}
+		case "servfail":
+			zones[tn] = mockdns.Zone{Err: errors.New("scripted SERVFAIL")}
+		case "ta-match":
+			zones[tn] = mockdns.Zone{AD: mx0.AD, Misc: c05TLSA(tn, 2, 1, 1, c05SPKIHash(c05CA))}
+		}
+	}
 	if len(sc.MXs) == 2 {
 		zones["second.invalid."] = mockdns.Zone{AD: sc.ADMX, MX: []net.MX{{Host: c05MXNames[1] + ".", Pref: 10}}}
 	}
@@ -492,6 +549,9 @@ func c05Run(sc c05Scenario) (vs []ev.V) {
 		if m.Second {
 			rcpt = "user@second.invalid"
 		}
+		if m.Implicit {
+			rcpt = "user@implicit.invalid"
+		}
 		d, err := tgt.Start(ctx, meta, "sender@example.com")
 		if err != nil {
 			results[mi] = result{err, "start"}
@@ -557,6 +617,51 @@ func c05Run(sc c05Scenario) (vs []ev.V) {
 					mi, sc.Msgs[mi].RequireTLS, sc.Msgs[mi].Override, sc.Msgs[mi].Quarantine, c05MXNames[si], sc.MXs[si].Kind, sc.MXs[si].TLSA, sc.MXs[si].AD, got.TLS, why,
 					sc.MTASTS, sc.MTASTSMatch, sc.DANE, sc.DNSSEC, sc.ADMX, sc.MinTLS, sc.MinMX, sc.AllowOverride, sc.Relaxed))
 			}
+		}
+	}
+	// the other direction, for the simple cases: a single candidate server that the policies allow, reached over
+	// the connection it naturally offers, gets the message (absent or unusable TLSA records, a missing MX record
+	// etc. are no reason for a refusal)
+	for mi, m := range sc.Msgs {
+		if results[mi].err == nil || m.Both || m.RequireTLS || m.Quarantine {
+			continue
+		}
+		idx := -1
+		switch {
+		case m.Implicit:
+			idx = 0
+		case m.Second:
+			idx = 1
+		case len(sc.MXs) == 1:
+			idx = 0
+		}
+		if idx < 0 {
+			continue
+		}
+		mx := sc.MXs[idx]
+		if m.Implicit {
+			mx = sc.implicitMX
+		}
+		natural, known := false, true
+		switch mx.Kind {
+		case "plain":
+			natural = false
+		case "valid", "wrongname", "selfsigned":
+			natural = true
+		default:
+			known = false // a failing handshake: what the client ends up with is its own business
+		}
+		if !known {
+			continue
+		}
+		if ok, _ := c05Allowed(sc, m, idx, natural); ok {
+			shape := "explicit-mx"
+			if m.Implicit {
+				shape = "implicit-mx"
+			}
+			vs = append(vs, ev.Vf("policy:refused-although-allowed:"+shape, "message %d (tls-required-no=%v) for its only candidate server (%s, TLSA %s, AD %v, cname %q) was refused at %s although every policy in force is satisfied over a %s connection: %v; configuration: mtasts=%q(match %s) dane=%v dnssec=%v(AD on MX lookup %v) local_policy=%q/%q override allowed=%v",
+				mi, m.Override, mx.Kind, mx.TLSA, mx.AD, mx.CNAME, results[mi].stage, map[bool]string{true: "TLS", false: "plaintext"}[natural], results[mi].err,
+				sc.MTASTS, sc.MTASTSMatch, sc.DANE, sc.DNSSEC, sc.ADMX, sc.MinTLS, sc.MinMX, sc.AllowOverride))
 		}
 	}
 	// discovery failure must defer, not bounce
